@@ -1,7 +1,10 @@
 (** C05 — property theorems: command output is a function of input and options, not of parallelism. *)
 From Coq Require Import List Arith NArith Bool Permutation.
 From OBI.Common Require Import Reseq.
-From OBI.C05 Require Import Model Proofs.
+From OBI.C05 Require Import Model Proofs Records RecordsProofs.
+From Coq Require Import ZArith NArith.
+From Coq Require Import String.
+From Coq Require Import List.
 Import ListNotations.
 
 (** Whatever the partition of the input into batches (batch size, reader chunking: [P], empty batches
@@ -55,12 +58,61 @@ Theorem C05_validator_accepts_private_header :
   pool_check [PG 7 70; PR 10 100; PG 10 100; PR 11 100; PG 11 100]%N = None.
 Proof. vm_compute. reflexivity. Qed.
 
+(** ---- the per-record function of the commands (Records.v), tied to the real commands by correspondence ---- *)
+
+(** obiconvert / obicomplement / obigrep (length, count, -v) / obiannotate --length: for every batch
+    partition and every arrival permutation the records written are [flat_map (cmd_f c)] of the input. *)
+Theorem C05_cmd_any_config : forall (c : cmd) (l : list rec) (P : list (list rec)) (arr : list (nat * list rec)),
+  concat P = l -> Permutation arr (numbered (map (on_batch rec rec (cmd_f c)) P)) ->
+  pipeline_out rec arr = flat_map (cmd_f c) l.
+Proof. intros c. exact (pipeline_any_config rec rec (cmd_f c)). Qed.
+
+(** Folding commands (obicount; obisummary's merge of per-worker partial results): in ANY commutative
+    monoid, the result of consuming the batches in arrival order — no order restoration — is the
+    sequential fold of the input, for every batch partition and every arrival permutation. *)
+Theorem C05_fold_any_config : forall (A M : Type) (op : M -> M -> M) (e : M) (g : A -> M),
+  (forall a b c, op a (op b c) = op (op a b) c) -> (forall a b, op a b = op b a) -> (forall a, op a e = a) ->
+  forall (l : list A) (P arr : list (list A)),
+  concat P = l -> Permutation arr P -> fold_batches A M op e g arr = fold_spec A M op e g l.
+Proof. exact fold_any_config. Qed.
+
+Theorem C05_fold_workers_any_config : forall (A M : Type) (op : M -> M -> M) (e : M) (g : A -> M),
+  (forall a b c, op a (op b c) = op (op a b) c) -> (forall a b, op a b = op b a) -> (forall a, op a e = a) ->
+  forall (l : list A) (P : list (list A)) (W : list (list (list A))),
+  concat P = l -> Permutation (concat W) P -> fold_workers A M op e g W = fold_spec A M op e g l.
+Proof. exact fold_workers_any_config. Qed.
+
+(** obicount: (variants, reads, symbols) whatever the batches and their arrival order, and what they are. *)
+Theorem C05_count_any_config : forall (l : list rec) (P arr : list (list rec)),
+  concat P = l -> Permutation arr P ->
+  count_out arr = (Z.of_nat (length l), fold_right Z.add 0%Z (map rec_count l), fold_right Z.add 0%Z (map rec_len l)).
+Proof. intros l P arr HP Ha. rewrite (count_any_config l P arr HP Ha). apply count_spec_values. Qed.
+
+(** sanity of the modelled reverse complement: an involution on lower-case IUPAC DNA, length preserving *)
+Theorem C05_revcomp_involutive : forall r,
+  forallb is_iupac_lower (rseq r) = true -> revcomp_rec (revcomp_rec r) = r.
+Proof. exact revcomp_involutive. Qed.
+
+(** obicomplement's per-record function is the transcription of the two in-place loops of
+    BioSequence.ReverseComplement (sequence: swap and complement, qualities: swap); they compute the reverse
+    complement / the reverse, for every length (the middle base of an odd length is complemented once). *)
+Theorem C05_revcomp_loop_spec : forall r,
+  revcomp_rec r = mkrec (rid r) (rev (map nuc_complement (rseq r))) (option_map (@rev N) (rqual r)) (rann r).
+Proof. exact revcomp_loop_spec. Qed.
+
+(** obicsv (--ids --count -s -k ...): one row per record, same theorem with rows as output type. *)
+Theorem C05_csv_any_config : forall (keys : list (list N)) (l : list rec) (P : list (list rec)) (arr : list (nat * list (list aval))),
+  concat P = l -> Permutation arr (numbered (map (on_batch rec (list aval) (csv_f keys)) P)) ->
+  pipeline_out (list aval) arr = flat_map (csv_f keys) l.
+Proof. intros keys. exact (pipeline_any_config rec (list aval) (csv_f keys)). Qed.
+
 Example C05_nonvacuous :
   (* a 3-batch configuration with an empty batch, arrival order 2,0,1, f duplicating records *)
   pipeline_out nat [(2, [5;5]); (0, [1;1;2;2]); (1, [])] = flat_map (fun x => [x;x]) [1;2;5]
+  /\ revcomp_inplace (s2b "aacgn") = s2b "ncgtt"
   /\ exists h', hrun empty_heap [HGet 1 7; HWrite 1 7 [3%N]; HGet 2 8; HWrite 2 8 [4%N]; HRecycle 2 8; HGet 3 8; HWrite 3 8 [9%N]; HRead 1 7] = Some h'
                 /\ mem h' 7 = [3%N].
-Proof. split; [vm_compute; reflexivity|eexists; split; vm_compute; reflexivity]. Qed.
+Proof. split; [vm_compute; reflexivity|split; [vm_compute; reflexivity|eexists; split; vm_compute; reflexivity]]. Qed.
 
 Print Assumptions C05_pipeline_any_config.
 Print Assumptions C05_config_independent.
@@ -71,3 +123,10 @@ Print Assumptions C05_validator_rejects_double_recycle.
 Print Assumptions C05_validator_rejects_live_handout.
 Print Assumptions C05_validator_rejects_shared_header.
 Print Assumptions C05_validator_accepts_private_header.
+Print Assumptions C05_cmd_any_config.
+Print Assumptions C05_fold_any_config.
+Print Assumptions C05_fold_workers_any_config.
+Print Assumptions C05_count_any_config.
+Print Assumptions C05_revcomp_involutive.
+Print Assumptions C05_revcomp_loop_spec.
+Print Assumptions C05_csv_any_config.
